@@ -1,9 +1,12 @@
 // sched.h — interface of the cooperative scheduler (engines/sched/sched.cpp)
 #pragma once
 #include <stdint.h>
+#include <stddef.h>
 extern "C" {
 void vs_begin(const int *prefix, int n, int trace_fd);	// the calling thread becomes thread 0 and holds the baton
 void vs_end();
+const char *vs_trace_buf(size_t *len);						// trace of the last execution begun with trace_fd == -2 (kept in memory)
+int vs_leftover();										// threads of the last execution that have not finished
 void vs_point(int tag);									// plain scheduling point (shared-memory access the harness wants visible)
 void vs_point_r(int tag);									// read-only point (no progress; spin detection)
 void vs_set_state_hash(uint64_t (*fn)());				// optional: hash of the observable shared state, logged at choice points
